@@ -25,6 +25,8 @@ def unique_harness(ctx, cfg):
     inp = a.c.copy()
     for x in inp.flat:
         ctx.add(x >= 0)
+        if cfg.get("max_label") is not None:
+            ctx.add(x <= cfg["max_label"])  # bounded run: unmodelled numpy calls are followed by realisation
     ctx.input("cells", [inp[idx] for idx in np.ndindex(*shape)])
     ctx.input("shape", list(shape))
     ctx.input("multiseg", multiseg)
@@ -37,6 +39,10 @@ def unique_harness(ctx, cfg):
         ctx.tag(f"raised:{type(e).__name__}")
         ctx.oblige("C19.returns_without_error", False, "C19")
         return
+    if isinstance(out, np.ndarray):
+        from sx.arr import _as_sarr
+
+        out = _as_sarr(out)
     o = out.c
     ctx.tag("returned")
     nfr = 2 if multiseg else 1  # number of leading axes that index a frame/hypothesis
@@ -109,6 +115,10 @@ def bytrack_harness(ctx, cfg):
     inp = seg.c.copy()
     for x in inp.flat:
         ctx.add(x >= 0)
+        if cfg.get("max_label") is not None:
+            ctx.add(x <= cfg["max_label"])
+    if cfg.get("max_label") is not None:
+        ctx.add(And([sid[i] <= cfg["max_label"] for i in range(N)]))
     ctx.input("N", N)
     ctx.input("alive", list(sh.al))
     ctx.input("adj", [list(r) for r in sh.A])
@@ -126,6 +136,10 @@ def bytrack_harness(ctx, cfg):
         ctx.oblige("C19.returns_without_error", False, "C19")
         return
     ctx.tag("returned")
+    if isinstance(out, np.ndarray):
+        from sx.arr import _as_sarr
+
+        out = _as_sarr(out)
     o = out.c
     segrel = sh1.seg()
     cells = [(t, p) for t in range(T) for p in range(P)]
